@@ -67,6 +67,6 @@ def handlePipeFile : List String → String
 /-- large-input cases are judged by the harness oracles only; the driver just acknowledges them -/
 def handleOracleOnly (_ : List String) : String := "-"
 
-def handlers : List (String × (List String → String)) := [("PIPE", handlePipe), ("PIPEF", handlePipeFile), ("ORACLE-ONLY", handleOracleOnly)]
+def handlers : List (String × (List String → String)) := [("PIPE", handlePipe), ("PIPEH", handlePipe), ("PIPEF", handlePipeFile), ("ORACLE-ONLY", handleOracleOnly)]
 
 end IB.D01
